@@ -64,6 +64,7 @@ class Opts:
     meta: int = 14                  # % of characters that are regex metacharacters (as literals)
     no_line_breaks: bool = False    # no \n / \r literals in the pattern
     inner_anchors: int = 3          # % of terms that are ^ or $ in the middle
+    inner_kinds: str = "^$"         # which anchors may occur in the middle
     dot: int = 8                    # % of atoms that are '.'
     sets: int = 25                  # % of atoms that are character sets
     groups: int = 20                # % of atoms that are groups (when depth remains)
@@ -201,7 +202,7 @@ def _variable(m: int, n: Optional[int]) -> bool:
 def _term(draw: Any, o: Opts, depth: int, vq: int = 0) -> List[Any]:
     """``vq`` = number of enclosing variable quantifiers (bounded: backtracking in ``re``)."""
     if draw(_pct) < o.inner_anchors:
-        return [draw(st.sampled_from(["^", "$"]))]
+        return [draw(st.sampled_from(list(o.inner_kinds)))]
     x = draw(_pct)
     if x < o.dot:
         atom = ["."]  # type: List[Any]
